@@ -311,7 +311,20 @@ class Interp:
         raise Unsupported("local from-import")
 
     def st_With(self, st, fr):
-        raise Unsupported(f"with statement at line {st.lineno}")
+        # only `with open(...) as f:` (ghost file system of the engine) is modelled
+        opened = []
+        for item in st.items:
+            v = self.eval(item.context_expr, fr)
+            if not (isinstance(v, PObj) and v.clsname in ("OutFile", "InFile")):
+                raise Unsupported(f"with statement on {type(v).__name__} at line {st.lineno}")
+            if item.optional_vars is not None:
+                self.assign(item.optional_vars, v, fr)
+            opened.append(v)
+        try:
+            self.exec_block(st.body, fr)
+        finally:
+            for v in opened:
+                v.fields["closed"] = True
 
     def st_FunctionDef(self, st, fr):
         raise Unsupported("nested function definition")
